@@ -41,6 +41,8 @@ static void advance(struct tr *t) {
         struct user_regs_struct r; ptrace(PTRACE_GETREGS, t->pid, 0, &r);
         if (!t->in_sys) {
             t->in_sys = 1; t->cur_nr = (long)r.orig_rax; t->pend_open = 0; int hit = 0;
+            /* creating a directory ABOVE the watched path concerns it too (a writer that makes a missing log directory) */
+            if (t->cur_nr == SYS_mkdir || t->cur_nr == SYS_mkdirat) { char p[4200]; peek_str(t->pid, t->cur_nr == SYS_mkdir ? r.rdi : r.rsi, p, sizeof p); size_t pl = strlen(p); if (pl && !strncmp(path, p, pl) && path[pl] == '/') hit = 1; }
             if (t->cur_nr == SYS_openat || t->cur_nr == SYS_open) { char p[4200]; peek_str(t->pid, t->cur_nr == SYS_open ? r.rdi : r.rsi, p, sizeof p); if (!strcmp(p, path)) { hit = 1; t->pend_open = 1; } }
             else if (t->cur_nr == SYS_write || t->cur_nr == SYS_writev || t->cur_nr == SYS_pwrite64 || t->cur_nr == SYS_close || t->cur_nr == SYS_lseek || t->cur_nr == SYS_ftruncate || t->cur_nr == SYS_fsync || t->cur_nr == SYS_fdatasync || t->cur_nr == SYS_fstat || t->cur_nr == SYS_newfstatat || t->cur_nr == SYS_fcntl) hit = watched(t, (int)r.rdi);
             if (hit) { t->held = 1; t->held_nr = t->cur_nr; return; }
